@@ -257,3 +257,23 @@ Proof.
         (conj (proj1 (proj2 premise_mul_instances)) (proj1 premise_inverse_instances))).
 Qed.
 Print Assumptions C01_premise_instances.
+
+(* ---- Montgomery's trick as coded in sm2_fast_sign_pre_compute / sm2_encrypt_pre_compute ---- *)
+(* one correct inversion of the total product gives every slot the inverse of its own Z (ring algebra mod m) *)
+Theorem C01_batch_inv_correct : forall m, 0 < m -> forall (inv : Z -> Z) (zs : list Z),
+  (2 <= length zs)%nat ->
+  (nth (length zs - 1) (f_list m zs) 0 * inv (nth (length zs - 1) (f_list m zs) 0)) mod m = 1 mod m ->
+  forall i, (i < length zs)%nat ->
+    (nth i zs 0 * nth i (batch_inv m inv zs) 0) mod m = 1 mod m.
+Proof. exact batch_inv_correct. Qed.
+Print Assumptions C01_batch_inv_correct.
+
+(* hence all 32 slots of sm2_fast_sign_pre_compute hold (k_i, x([k_i]G) reduced mod n), whatever the
+   Jacobian Z coordinates were; premise: the shared inversion (egcd here, a^(p-2) in C) is correct *)
+Theorem C01_fast_pre_compute_eq_partial : forall zs (en : ent) ks en',
+  draw_ks 32 en = Some (ks, en') ->
+  (let Zs := map (fun i => jac_Z ZOps (sm2_mulG ZOps (nth i ks 0)) (nth i zs 1)) (seq 0 32) in
+   let T := nth 31 (f_list sm2_p Zs) 0 in (T * inv_p ZOps T) mod sm2_p = 1 mod sm2_p) ->
+  fast_pre_compute ZOps zs en = Some (map (pre_entry ZOps) ks, en').
+Proof. exact fast_pre_compute_eq_partial. Qed.
+Print Assumptions C01_fast_pre_compute_eq_partial.
